@@ -162,7 +162,28 @@ void single_flavour(Life &L) {
         }
         break;
       }
-      case O_LOCK_PROBE: if (L.created) lock_must_be(L, L.db != nullptr, "probe"); break;
+      case O_LOCK_PROBE:
+        if (L.created) lock_must_be(L, L.db != nullptr, "probe");
+        if (o.b == 1 && L.created && !L.db && simfs::foreign_lock(L.dir + "/LOCK", true)) {
+          // another process holds the database: open, destroy and copy must all be refused and leave every file alone
+          uint64_t h0 = simfs::tree_hash(L.dir, true);
+          probe("foreign_lock_holder");
+          { DbOptions o2; o2.set(p.cfg, true); ldb_t *db2 = nullptr; int rc = ldb_open(L.dir.c_str(), &o2.o, &db2);
+            if (rc == LDB_OK) { violation("C20", "open_despite_foreign_lock", "ldb_open succeeds although another process holds the LOCK file"); ldb_close(db2); } }
+          if (!failed()) { DbOptions o2; o2.set(p.cfg, true); int rc = ldb_destroy(L.dir.c_str(), &o2.o);
+            if (rc == LDB_OK) violation("C20", "destroy_despite_foreign_lock", "ldb_destroy succeeds although another process holds the LOCK file"); }
+          if (!failed()) { DbOptions o2; o2.set(p.cfg, true); string cd = "/sim/fcopy" + std::to_string(nbak++); int rc = ldb_copy(L.dir.c_str(), cd.c_str(), &o2.o);
+            if (rc == LDB_OK) { Contents got; if (read_all(cd, p.cfg, &got, "copy taken while another process holds the source") && got != L.model) violation("C20", "copy_contents", "ldb_copy of a database held by another process succeeds with different contents"); } }
+          if (!failed() && simfs::tree_hash(L.dir, true) != h0) violation("C20", "refused_call_modified_db", "open/destroy/copy refused because another process holds the LOCK file, but the database directory was modified");
+          simfs::foreign_lock(L.dir + "/LOCK", false);
+          if (!failed()) {
+            opt.set(p.cfg, true);
+            int rc = ldb_open(L.dir.c_str(), &opt.o, &L.db);
+            if (rc != LDB_OK) { violation("C20", "open_failed", "open after the other process released the LOCK file fails: %s", rcname(rc)); L.db = nullptr; }
+            else check_model(L, "after the other process released the lock");
+          }
+        }
+        break;
       case O_BACKUP: {
         if (!L.db) break;
         if (onto_existing(o, true)) break;
@@ -351,7 +372,7 @@ Plan gen_life(uint64_t seed, const string &prop) {
     else if (c < 50) o.kind = O_OPEN;
     else if (c < 58) o.kind = O_CLOSE;
     else if (c < 70) { o.kind = O_OPEN2; o.b = (int)r.below(4); }
-    else if (c < 78) o.kind = O_LOCK_PROBE;
+    else if (c < 78) { o.kind = O_LOCK_PROBE; o.b = r.chance(0.4); }
     else if (c < 86) { o.kind = O_BACKUP; if (r.chance(0.3)) o.a = (int)r.below(6); }
     else if (c < 93) { o.kind = O_COPY; if (r.chance(0.3)) o.a = (int)r.below(6); }
     else { o.kind = O_DESTROY; o.b = (int)r.below(16); }
